@@ -145,7 +145,7 @@ REGISTRY: dict[str, dict] = {
     ),
     "C03": dict(
         modules=["C03", "C06", "C01Bytes", "WireRoundTrip", "TranslatedEnc"],
-        theorems=[T + "Translated.encode_iri_indices_eq", T + "Translated.entry_index_exec", T + "Translated.name_term_index_exec", T + "Translated.prefix_term_index_exec", T + "C03_triples", T + "C03_quads", T + "C03_graphs", T + "C06_rows_independent_of_flow",
+        theorems=[T + "Translated.encode_iri_indices_eq", T + "Translated.encode_literal_eq", T + "Translated.datatype_term_index_exec", T + "Translated.entry_index_exec", T + "Translated.name_term_index_exec", T + "Translated.prefix_term_index_exec", T + "C03_triples", T + "C03_quads", T + "C03_graphs", T + "C06_rows_independent_of_flow",
                   T + "C03_bytes_delimited", T + "written_rows_wireWF", T + "wire_delimited_roundtrip", T + "wire_single_concat",
                   T + "namespace_run"],
         rule="SER (generic integration: stream_frames with sink/generator input, flat_/grouped_stream_to_file; namespace "
@@ -180,7 +180,7 @@ REGISTRY: dict[str, dict] = {
     ),
     "C19": dict(
         modules=["C19", "C03", "TranslatedEnc"],
-        theorems=[T + "Translated.encode_iri_indices_eq", T + "Translated.entry_index_exec", T + "Translated.name_term_index_exec", T + "Translated.prefix_term_index_exec", T + "C19_triples", T + "C19_quads", T + "C19_graphs", T + "C19_each_name_once", T + "C03_triples"],
+        theorems=[T + "Translated.encode_iri_indices_eq", T + "Translated.encode_literal_eq", T + "Translated.datatype_term_index_exec", T + "Translated.entry_index_exec", T + "Translated.name_term_index_exec", T + "Translated.prefix_term_index_exec", T + "C19_triples", T + "C19_quads", T + "C19_graphs", T + "C19_each_name_once", T + "C03_triples"],
         rule="SPEC audit on the REAL bytes of generic serializer cases (3 classes, all entry points, namespace declarations, "
              "presets down to 8/0/0 and 8/1/1, frame sizes 1..250): the Lean referee's counters redundant-entry, missed-repeat, "
              "missed-zero (and split-graph for GraphStream) must all be 0. Inputs with xsd:string-typed literals are left out "
